@@ -60,6 +60,9 @@ Reset == /\ Is("reset")
 
 Core(t) == [b |-> t.b, e |-> t.e, lt |-> t.lt, id |-> t.id, l |-> t.l, r |-> t.r, c |-> t.c, tot |-> t.tot]
 CoreSeq(toks) == [i \in 1..Len(toks) |-> Core(toks[i])]
+Full(t) == [b |-> t.b, e |-> t.e, bb |-> t.bb, be |-> t.be, surf |-> t.surf, f |-> t.f,
+            lt |-> t.lt, id |-> t.id, l |-> t.l, r |-> t.r, c |-> t.c, tot |-> t.tot]
+FullSeq(toks) == [i \in 1..Len(toks) |-> Full(toks[i])]
 
 IdsSane(toks) == \A i \in 1..Len(toks) : 0 <= toks[i].l /\ toks[i].l < dict.nl /\ 0 <= toks[i].r /\ toks[i].r < dict.nr
 RangesSane(s, toks) == /\ \A i \in 1..Len(toks) : 0 <= toks[i].b /\ toks[i].b < toks[i].e /\ toks[i].e <= Len(s)
@@ -87,9 +90,11 @@ Tok == /\ Is("tok")
                       /\ AT("C03", "lattice-candidate-bags", chk.cands)
                       /\ AT("C02", "lattice-node-minima", chk.mins)
                       /\ A("C04", "backtrace-is-result", WalkMatches(E.lat, toks))))
-          /\ A("C04", "same-result-as-before", \A m \in memo : m[1] = s => m[2] = toks)     \* same result whatever preceded
+          (* same result whatever preceded: EVERYTHING reported for the sentence, byte ranges, surfaces
+             and features included *)
+          /\ A("C04", "same-result-as-before", \A m \in memo : m[1] = s => m[2] = FullSeq(E.toks))
           /\ ws' = [ws EXCEPT ![E.w] = [sent |-> s, tk |-> TRUE, top |-> toks]]
-          /\ memo' = memo \cup {<<s, toks>>}
+          /\ memo' = memo \cup {<<s, FullSeq(E.toks)>>}
        /\ UNCHANGED <<dict, opts, cnt>>
 
 Read == /\ Is("read")
@@ -149,7 +154,8 @@ PanicStuck == /\ Is("panic") /\ DevStuck
    assertion so that the rejection is attributed to the property that owns the clause *)
 PanicElsewhere ==
    /\ Is("panic")
-   /\ \/ (E.op.op \in {"tok", "reset", "read", "respace"} /\ ~On("C01"))
+   /\ \/ (E.op.op \in {"tok", "reset", "read"} /\ ~On("C01"))
+      \/ (E.op.op = "respace" /\ ~On("C01") /\ ~On("C12"))      \* C12's own probes: both sentences must be tokenized
       \/ (E.op.op \in {"cinit", "cupd", "probs"} /\ ~On("C13"))
       \/ (E.op.op = "build" /\ ~On("C10"))
    /\ UNCHANGED <<dict, opts, ws, cnt, memo>>
